@@ -244,12 +244,13 @@ theorem code_consequentLoad (e : EngineInfo) (text : String) :
       rw [Bool.eq_false_iff]; exact fun hh => h (String.isEmpty_iff.mp hh)
     have h2 : (text != "") = true := by simp only [bne_iff_ne, ne_eq, h, not_false_eq_true]
     simp only [h1, h2, Bool.not_true, Bool.false_eq_true, if_false, consequentLoadTokens, Py.split]
-    have hl := code_cLoop e text (splitWords text) cVariable []
-      { self_conclusions := [], state := 1, proposition := Py.Alias.none.detach, conclusions := [],
-        output_variables := outputs e }
-      ⟨rfl, rfl, fun _ hp => absurd hp (by simp), Or.inl ⟨rfl, rfl, fun _ => rfl⟩, fun hh => absurd rfl hh⟩
+    generalize hg : Consequent_load.loop1 e text (splitWords text) _ = g
+    have hl : CAgree e (cLoop e (splitWords text) cVariable []) g := by
+      rw [← hg]
+      exact code_cLoop e text (splitWords text) cVariable [] _
+        ⟨rfl, rfl, fun _ hp => absurd hp (by simp), Or.inl ⟨rfl, rfl, fun _ => rfl⟩, fun hh => absurd rfl hh⟩
+    clear hg
     revert hl
-    generalize Consequent_load.loop1 e text (splitWords text) _ = g
     generalize cLoop e (splitWords text) cVariable [] = r
     intro hl
     cases g with
